@@ -194,7 +194,7 @@ func (w *C02) Run(t *rt.Tape, trace bool) *core.Result {
 	res := &core.Result{Reach: map[string]int{}}
 	core.BeginRun(t)
 	pipe, small := DrawPipe(t)
-	opts := gen.CircuitOpts{}
+	opts := gen.CircuitOpts{ZeroWidth: true}
 	if w.Tier == "thorough" {
 		opts.MaxGates = 1500 // deeper bounds in the thorough tier
 		opts.MaxIn = 48
@@ -233,6 +233,11 @@ func (w *C02) Run(t *rt.Tape, trace bool) *core.Result {
 	res.Reach["ot."+OTNames[kind]]++
 	if len(circ.Outputs) > 1 {
 		res.Reach["circuit.multi-output"]++
+	}
+	for i, a := range circ.Inputs {
+		if a.Type.Bits == 0 {
+			res.Reach[fmt.Sprintf("circuit.zero-width-argument-of-%s", []string{"garbler", "evaluator"}[i%2])]++
+		}
 	}
 	res.Nontrivial = o.RR.Switches > 2
 	if res.Inconclusive != "" {
